@@ -6,8 +6,12 @@ import Cx.Proofs.RevSuffix
 
   `Mt h s e` is an abstract match relation ("the pattern matches `h[s:e)` in the context of `h`"; instantiated with `Accepts N` in
   `Cx.Proofs.MetaFindInst`), `ref h at` an abstract reference search = the leftmost-first span from `at` (instantiated with
-  `btSearchAt N`).  In leftmost-longest mode (`Longest()`) read `ref` as the leftmost-longest reference: the NFA engines honour
-  the flag, the DFAs do not — which is why `OraclesOK.bi` (the DFA contracts) is only demanded for `P.longest = false`.
+  `btSearchAt N`).  In leftmost-longest mode (`Longest()`) read `ref` as the leftmost-longest reference: the NFA engines (Pike
+  VM, both backtrackers) honour the flag, the DFAs do not — which is why `OraclesOK.bi` (the DFA contracts) is only demanded for
+  `P.longest = false`.  The code calls the DFA pair in leftmost-first mode only: `findIndicesDFA*` start with `if e.longest`
+  → Pike VM (`findIndicesDFA_longest`; their `_eq_ref` theorems are stated for `P.longest = false`), and the fallbacks of the
+  UseBoundedBacktracker functions are guarded by `!e.longest` since ecab302 (`dfaFallback`), so the UseNFA / UseBoth /
+  UseBoundedBacktracker theorems hold in BOTH modes.
 
   Component contracts (all for the haystack at hand; every one is a field of `OraclesOK`, guarded by the flags under which the
   code calls the component):
@@ -35,19 +39,26 @@ import Cx.Proofs.RevSuffix
     findIndicesDFA_eq_ref, findIndicesDFAAt_eq_ref, candLoop_eq_ref (the loop is dead code: `findIndicesDFA_candLoop_dead`)
     findIndicesNFA_eq_ref, findIndicesNFAAt_eq_ref
     findIndicesAdaptive_eq_ref, findIndicesAdaptiveAt_eq_ref
-    findIndicesBT_eq_ref, findIndicesBTAt_eq_ref, findIndicesBTAtWithState_eq_ref
+    findIndicesBT_eq_ref, findIndicesBTAt_eq_ref, findIndicesBTAtWithState_eq_ref   (both modes; no `AsciiTailOK` any more)
     findIndices_eq_ref, findIndicesAt_eq_ref, findIndicesAtWithState_eq_ref     (the dispatch)
     isMatchNFA_eq_ref, isMatchDFA_eq_ref, isMatchAdaptive_eq_ref                (`IsMatch`, meta/ismatch.go: `= (ref h 0).isSome`)
     findIndicesDFA_longest / findIndicesDFAAt_longest                           (leftmost-longest mode: the Pike VM)
-  followed by one counter-model per hypothesis (`cex_*`, brute-force oracles over explicit tables, `by decide`) and a
+  followed by one counter-model per hypothesis (`cex_*`, brute-force oracles over explicit tables, `by decide`; `cex_*_fixed`:
+  hypotheses that are no longer needed because the code was repaired) and a
   non-vacuity instance (`litOracles_ok`: a literal pattern with a complete prefilter; the instance over the real component
   models is `realOracles_ok` in `Cx.Proofs.MetaFindInst`).
 
-  Findings of the transliteration (all confirmed on the real code, see the `cex_*` section):
-    * `findIndicesBidirectionalDFALongest` (the `CanHandle` fallback of UseBoundedBacktracker) reports leftmost-FIRST spans in
-      leftmost-longest mode; the ASCII backtracker is never told about `Longest()`;
-    * `findIndicesBoundedBacktrackerAt(WithState)`: the ASCII check reads at most 4096 bytes of a start-anchored pattern's input
-      but the ASCII-only automaton then runs over ALL of it;
+  Findings of the transliteration (all confirmed on the real code, see the `cex_*` section).  Three were repaired in the code
+  after commit 83f9184; the model follows HEAD and their counter-models became `cex_*_fixed` witnesses (the model returns the
+  reference on the very inputs that used to go wrong):
+    * FIXED (ecab302) `findIndicesBidirectionalDFALongest` (the `CanHandle` fallback of UseBoundedBacktracker) reported
+      leftmost-FIRST spans in leftmost-longest mode: every call is now guarded by `!e.longest`  (`cex_longest_fallback_fixed`);
+    * FIXED (b09f397) the ASCII backtracker was never told about `Longest()`: `SetLongest` now configures it
+      (`cex_ascii_longest_fixed`);
+    * FIXED (fffbd3b) `findIndicesBoundedBacktrackerAt(WithState)`: the ASCII check read at most 4096 bytes of a start-anchored
+      pattern's input but the ASCII-only automaton ran over ALL of it: the check now reads all of it (`cex_ascii_tail_fixed`;
+      the hypothesis `AsciiTailOK` is gone);
+  still there:
     * the "V12 windowed" backtracker of `findIndicesBoundedBacktrackerAtWithState` returns a span cut at the window;
     * the candidate loop and the "non-greedy" prefilter branch of `findIndicesDFA` are dead code;
     * `findIndicesAdaptive` trusts `FindMatch` without asking `IsComplete()` (unreachable with the default configuration:
@@ -530,14 +541,20 @@ theorem findIndicesAdaptive_eq_ref (R : RefOK Mt ref h) (K : PikeOK O ref h) (hb
 def FirstByteOK (O : Oracles) (P : Params) (ref : Bytes → Nat → Option Span) (h : Bytes) : Prop :=
   firstByteRejects O P h = true → ref h 0 = none
 
+theorem dfaFallback_iff : dfaFallback P = true ↔ P.longest = false ∧ P.hasDFA = true ∧ P.hasReverseDFA = true := by
+  unfold dfaFallback
+  cases P.longest <;> cases P.hasDFA <;> cases P.hasReverseDFA <;> decide
+
 /-- `findIndicesBoundedBacktracker`.  `hbt'`: in THIS strategy the backtracker is used whatever `canMatchEmpty` says;
-    `hbi`: the `CanHandle` fallback is the two-pass DFA search, which finds LEFTMOST-FIRST spans (so `ref` must be the
-    leftmost-first reference when it is taken: `OraclesOK.bi` demands `BiOK` only for `longest = false`) -/
+    `hbi`: the `CanHandle` fallback is the two-pass DFA search, which finds LEFTMOST-FIRST spans — since ecab302 the code takes
+    it in leftmost-first mode only (`dfaFallback`), so the DFA contract is only needed there and the theorem holds in both
+    modes (in leftmost-longest mode `ref` is the leftmost-longest reference and the fallback is the Pike VM) -/
 theorem findIndicesBT_eq_ref (R : RefOK Mt ref h) (K : PikeOK O ref h) (hbt : useBT P = true → BtOK O ref h)
     (hbt' : P.hasBT = true → BtOK O ref h)
     (hpf : P.hasPrefilter = true → P.prefilterPartialCoverage = false → PfOK O Mt h)
     (hfb : FirstByteOK O P ref h)
-    (hbi : P.hasBT = true → P.hasDFA = true → P.hasReverseDFA = true → O.btCanHandle h.size = false → BiOK O Mt ref h) :
+    (hbi : P.hasBT = true → P.longest = false → P.hasDFA = true → P.hasReverseDFA = true → O.btCanHandle h.size = false →
+      BiOK O Mt ref h) :
     findIndicesBT O P h = ref h 0 := by
   have hat : 0 ≤ h.size := Nat.zero_le _
   unfold findIndicesBT
@@ -555,15 +572,16 @@ theorem findIndicesBT_eq_ref (R : RefOK Mt ref h) (K : PikeOK O ref h) (hbt : us
         by_cases ha : P.alwaysAnchored = true
         · rw [if_pos ha]; exact K 0 hat
         · rw [if_neg ha]
-          by_cases hd : (P.hasDFA && P.hasReverseDFA) = true
+          by_cases hd : dfaFallback P = true
           · rw [if_pos hd]
-            simp only [Bool.and_eq_true] at hd
-            exact bidirectionalLongest_eq_ref R (hbi hb hd.1 hd.2 hch) hat
+            obtain ⟨d1, d2, d3⟩ := dfaFallback_iff.mp hd
+            exact bidirectionalLongest_eq_ref R (hbi hb d1 d2 d3 hch) hat
           · rw [if_neg hd]; exact K 0 hat
   · rw [if_pos (by simpa using hb)]
     exact findIndicesNFA_eq_ref R K hbt hpf
 
-/-- the backtrackers run on a slice `haystack[lo:hi]` answer the reference of THAT haystack -/
+/-- the backtrackers run on a slice `haystack[lo:hi]` answer the reference of THAT haystack (in the mode at hand: since
+    b09f397 `SetLongest` configures the ASCII backtracker as well as the general one) -/
 structure SliceOK (O : Oracles) (ref : Bytes → Nat → Option Span) (h : Bytes) : Prop where
   btSl : ∀ lo hi, lo ≤ hi → hi ≤ h.size → O.btCanHandle (hi - lo) = true → O.btSlice h lo hi = ref (h.extract lo hi) 0
   /-- the ASCII automaton is equivalent on ASCII input only -/
@@ -574,32 +592,29 @@ structure SliceOK (O : Oracles) (ref : Bytes → Nat → Option Span) (h : Bytes
 def SliceInv (ref : Bytes → Nat → Option Span) (h : Bytes) (at_ : Nat) : Prop :=
   shift at_ (ref (h.extract at_ h.size) 0) = ref h at_
 
-/-- the ASCII check reads only the first `asciiCheckLimit` (4096) bytes of a start-anchored pattern's input: the theorem
-    needs the rest to be ASCII as well -/
-def AsciiTailOK (P : Params) (h : Bytes) (at_ : Nat) : Prop :=
-  isASCIIIn h at_ (asciiCheckEnd P h at_) = true → isASCIIIn h at_ h.size = true
-
-/-- `findIndicesBoundedBacktrackerAt` -/
+/-- `findIndicesBoundedBacktrackerAt`.  Since fffbd3b the ASCII check covers all of `haystack[at:]`, which is exactly the
+    slice the ASCII automaton then runs on: no hypothesis about unread bytes is left.  Since ecab302 the two-pass fallback is
+    taken in leftmost-first mode only: `hbi` is only needed there, the theorem holds in both modes. -/
 theorem findIndicesBTAt_eq_ref (R : RefOK Mt ref h) (K : PikeOK O ref h) (hbt : useBT P = true → BtOK O ref h)
     (hpf : P.hasPrefilter = true → P.prefilterPartialCoverage = false → PfOK O Mt h)
-    (hbi : P.hasBT = true → P.hasDFA = true → P.hasReverseDFA = true → BiOK O Mt ref h)
+    (hbi : P.hasBT = true → P.longest = false → P.hasDFA = true → P.hasReverseDFA = true → BiOK O Mt ref h)
     (S : P.hasBT = true → SliceOK O ref h) {at_ : Nat} (hat : at_ ≤ h.size)
-    (hsl : P.hasBT = true → SliceInv ref h at_) (hta : P.hasAsciiBT = true → AsciiTailOK P h at_) :
+    (hsl : P.hasBT = true → SliceInv ref h at_) :
     findIndicesBTAt O P h at_ = ref h at_ := by
   unfold findIndicesBTAt
   by_cases hb : P.hasBT = true
   · rw [if_neg (by rw [hb]; decide)]
     have SS := S hb
     have fallback : ∀ (x : Option Span), x = ref h at_ →
-        (if (P.hasDFA && P.hasReverseDFA) = true then bidirectionalLongest O h at_ else x) = ref h at_ := by
+        (if dfaFallback P = true then bidirectionalLongest O h at_ else x) = ref h at_ := by
       intro x hx
-      by_cases hd : (P.hasDFA && P.hasReverseDFA) = true
+      by_cases hd : dfaFallback P = true
       · rw [if_pos hd]
-        simp only [Bool.and_eq_true] at hd
-        exact bidirectionalLongest_eq_ref R (hbi hb hd.1 hd.2) hat
+        obtain ⟨d1, d2, d3⟩ := dfaFallback_iff.mp hd
+        exact bidirectionalLongest_eq_ref R (hbi hb d1 d2 d3) hat
       · rw [if_neg hd]; exact hx
-    show (if (P.hasAsciiBT && isASCIIIn h at_ (asciiCheckEnd P h at_)) = true then _ else _) = ref h at_
-    by_cases hA : (P.hasAsciiBT && isASCIIIn h at_ (asciiCheckEnd P h at_)) = true
+    show (if (P.hasAsciiBT && isASCIIIn h at_ h.size) = true then _ else _) = ref h at_
+    by_cases hA : (P.hasAsciiBT && isASCIIIn h at_ h.size) = true
     · rw [if_pos hA]
       simp only [Bool.and_eq_true] at hA
       cases hch : O.asciiCanHandle (h.size - at_) with
@@ -608,7 +623,7 @@ theorem findIndicesBTAt_eq_ref (R : RefOK Mt ref h) (K : PikeOK O ref h) (hbt : 
         exact fallback _ (K at_ hat)
       | true =>
         simp only [Bool.not_true, Bool.false_eq_true, ↓reduceIte]
-        rw [SS.asSl at_ h.size hat (Nat.le_refl _) (hta hA.1 hA.2) hch]
+        rw [SS.asSl at_ h.size hat (Nat.le_refl _) hA.2 hch]
         exact hsl hb
     · rw [if_neg hA]
       cases hch : O.btCanHandle (h.size - at_) with
@@ -630,14 +645,15 @@ def WindowOK (O : Oracles) (ref : Bytes → Nat → Option Span) (h : Bytes) (at
   (O.asciiMaxInput > 0 → h.size - at_ > O.asciiMaxInput → ∀ r, shift at_ (O.asciiSlice h at_ (at_ + O.asciiMaxInput)) = some r →
     ref h at_ = some r)
 
-/-- `findIndicesBoundedBacktrackerAtWithState` -/
+/-- `findIndicesBoundedBacktrackerAtWithState` (both modes; the windows are reached whenever the two-pass fallback is not
+    taken — in leftmost-longest mode also with both DFAs present: `hw` is guarded by `dfaFallback P = false`) -/
 theorem findIndicesBTAtWithState_eq_ref (R : RefOK Mt ref h) (K : PikeOK O ref h) (hbt : useBT P = true → BtOK O ref h)
     (hpf : P.hasPrefilter = true → P.prefilterPartialCoverage = false → PfOK O Mt h)
     (hfb : FirstByteOK O P ref h)
-    (hbi : P.hasBT = true → P.hasDFA = true → P.hasReverseDFA = true → BiOK O Mt ref h)
+    (hbi : P.hasBT = true → P.longest = false → P.hasDFA = true → P.hasReverseDFA = true → BiOK O Mt ref h)
     (S : P.hasBT = true → SliceOK O ref h) {at_ : Nat} (hat : at_ ≤ h.size)
-    (hsl : P.hasBT = true → SliceInv ref h at_) (hta : P.hasAsciiBT = true → AsciiTailOK P h at_)
-    (hw : P.hasBT = true → (P.hasDFA && P.hasReverseDFA) = false → WindowOK O ref h at_) :
+    (hsl : P.hasBT = true → SliceInv ref h at_)
+    (hw : P.hasBT = true → dfaFallback P = false → WindowOK O ref h at_) :
     findIndicesBTAtWithState O P h at_ = ref h at_ := by
   unfold findIndicesBTAtWithState
   by_cases hb : P.hasBT = true
@@ -650,20 +666,20 @@ theorem findIndicesBTAtWithState_eq_ref (R : RefOK Mt ref h) (K : PikeOK O ref h
     · rw [if_neg hf]
       have SS := S hb
       have fallback : ∀ (w : Option Span),
-          ((P.hasDFA && P.hasReverseDFA) = false → ∀ r, w = some r → ref h at_ = some r) →
-          (if (P.hasDFA && P.hasReverseDFA) = true then bidirectionalLongest O h at_
+          (dfaFallback P = false → ∀ r, w = some r → ref h at_ = some r) →
+          (if dfaFallback P = true then bidirectionalLongest O h at_
            else match w with | some r => some r | none => O.pike h at_) = ref h at_ := by
         intro w hw'
-        by_cases hd : (P.hasDFA && P.hasReverseDFA) = true
+        by_cases hd : dfaFallback P = true
         · rw [if_pos hd]
-          simp only [Bool.and_eq_true] at hd
-          exact bidirectionalLongest_eq_ref R (hbi hb hd.1 hd.2) hat
+          obtain ⟨d1, d2, d3⟩ := dfaFallback_iff.mp hd
+          exact bidirectionalLongest_eq_ref R (hbi hb d1 d2 d3) hat
         · rw [if_neg hd]
           cases hww : w with
           | none => exact K at_ hat
           | some r => exact (hw' (by simpa using hd) r hww).symm
-      show (if (P.hasAsciiBT && isASCIIIn h at_ (asciiCheckEnd P h at_)) = true then _ else _) = ref h at_
-      by_cases hA : (P.hasAsciiBT && isASCIIIn h at_ (asciiCheckEnd P h at_)) = true
+      show (if (P.hasAsciiBT && isASCIIIn h at_ h.size) = true then _ else _) = ref h at_
+      by_cases hA : (P.hasAsciiBT && isASCIIIn h at_ h.size) = true
       · rw [if_pos hA]
         simp only [Bool.and_eq_true] at hA
         cases hch : O.asciiCanHandle (h.size - at_) with
@@ -679,7 +695,7 @@ theorem findIndicesBTAtWithState_eq_ref (R : RefOK Mt ref h) (K : PikeOK O ref h
           · rw [if_neg hc] at hr; cases hr
         | true =>
           simp only [Bool.not_true, Bool.false_eq_true, ↓reduceIte]
-          rw [SS.asSl at_ h.size hat (Nat.le_refl _) (hta hA.1 hA.2) hch]
+          rw [SS.asSl at_ h.size hat (Nat.le_refl _) hA.2 hch]
           exact hsl hb
       · rw [if_neg hA]
         cases hch : O.btCanHandle (h.size - at_) with
@@ -760,29 +776,23 @@ theorem findIndicesAdaptiveAt_ok (S : OraclesOK O P Mt ref h) (hcov : P.hasPrefi
     {at_ : Nat} (hat : at_ ≤ h.size) : findIndicesAdaptiveAt O P h at_ = ref h at_ :=
   findIndicesAdaptiveAt_eq_ref S.toRefOK S.pike (fun hu => S.bt (useBT_hasBT hu)) (fun hp => S.pf hp (hcov hp)) S.pfc hat
 
-theorem findIndicesBT_ok (S : OraclesOK O P Mt ref h)
-    (hl : P.longest = false ∨ (P.hasDFA && P.hasReverseDFA) = false ∨ O.btCanHandle h.size = true) :
-    findIndicesBT O P h = ref h 0 := by
-  refine findIndicesBT_eq_ref S.toRefOK S.pike (fun hu => S.bt (useBT_hasBT hu)) S.bt S.pf S.fb ?_
-  intro _ hd hr hch
-  rcases hl with hl | hl | hl
-  · exact S.bi hl hr
-  · rw [hd, hr] at hl; cases hl
-  · rw [hch] at hl; cases hl
+/-- `findIndicesBoundedBacktracker`, both modes (until ecab302 this needed `longest = false`, or no DFA pair, or `CanHandle`) -/
+theorem findIndicesBT_ok (S : OraclesOK O P Mt ref h) : findIndicesBT O P h = ref h 0 :=
+  findIndicesBT_eq_ref S.toRefOK S.pike (fun hu => S.bt (useBT_hasBT hu)) S.bt S.pf S.fb (fun _ hl _ hr _ => S.bi hl hr)
 
-/-- `findIndicesBoundedBacktrackerAt`, restricted to the inputs on which the `CanHandle` fallback is not the two-pass search
-    in leftmost-longest mode (`hl`) -/
-theorem findIndicesBTAt_ok (S : OraclesOK O P Mt ref h) (hl : P.longest = false) {at_ : Nat} (hat : at_ ≤ h.size)
-    (hsl : P.hasBT = true → SliceInv ref h at_) (hta : P.hasAsciiBT = true → AsciiTailOK P h at_) :
+/-- `findIndicesBoundedBacktrackerAt`, both modes, whatever the bytes of the haystack (until fffbd3b / ecab302 this needed
+    `AsciiTailOK` and `longest = false`) -/
+theorem findIndicesBTAt_ok (S : OraclesOK O P Mt ref h) {at_ : Nat} (hat : at_ ≤ h.size)
+    (hsl : P.hasBT = true → SliceInv ref h at_) :
     findIndicesBTAt O P h at_ = ref h at_ :=
-  findIndicesBTAt_eq_ref S.toRefOK S.pike (fun hu => S.bt (useBT_hasBT hu)) S.pf (fun _ _ hr => S.bi hl hr) S.sl hat hsl hta
+  findIndicesBTAt_eq_ref S.toRefOK S.pike (fun hu => S.bt (useBT_hasBT hu)) S.pf (fun _ hl _ hr => S.bi hl hr) S.sl hat hsl
 
-theorem findIndicesBTAtWithState_ok (S : OraclesOK O P Mt ref h) (hl : P.longest = false) {at_ : Nat} (hat : at_ ≤ h.size)
-    (hsl : P.hasBT = true → SliceInv ref h at_) (hta : P.hasAsciiBT = true → AsciiTailOK P h at_)
-    (hw : P.hasBT = true → (P.hasDFA && P.hasReverseDFA) = false → WindowOK O ref h at_) :
+theorem findIndicesBTAtWithState_ok (S : OraclesOK O P Mt ref h) {at_ : Nat} (hat : at_ ≤ h.size)
+    (hsl : P.hasBT = true → SliceInv ref h at_)
+    (hw : P.hasBT = true → dfaFallback P = false → WindowOK O ref h at_) :
     findIndicesBTAtWithState O P h at_ = ref h at_ :=
-  findIndicesBTAtWithState_eq_ref S.toRefOK S.pike (fun hu => S.bt (useBT_hasBT hu)) S.pf S.fb (fun _ _ hr => S.bi hl hr) S.sl
-    hat hsl hta hw
+  findIndicesBTAtWithState_eq_ref S.toRefOK S.pike (fun hu => S.bt (useBT_hasBT hu)) S.pf S.fb (fun _ hl _ hr => S.bi hl hr) S.sl
+    hat hsl hw
 
 /-- an always-anchored pattern has no match from `at > 0` (the early return of `FindIndicesAt`) -/
 theorem anchored_none (S : OraclesOK O P Mt ref h) (ha : P.alwaysAnchored = true) {at_ : Nat} (hat : at_ ≤ h.size)
@@ -797,8 +807,7 @@ def StratFlags (O : Oracles) (P : Params) (ref : Bytes → Nat → Option Span) 
   | .nfa => True
   | .dfa => P.longest = false ∧ DfaFlags P
   | .both => P.hasPrefilter = true → P.prefilterPartialCoverage = false
-  | .bt => P.longest = false ∧ (P.hasBT = true → SliceInv ref h at_) ∧ (P.hasAsciiBT = true → AsciiTailOK P h at_) ∧
-      (P.hasBT = true → (P.hasDFA && P.hasReverseDFA) = false → WindowOK O ref h at_)
+  | .bt => (P.hasBT = true → SliceInv ref h at_) ∧ (P.hasBT = true → dfaFallback P = false → WindowOK O ref h at_)
 
 /-- **`FindIndices` is the reference search** for the strategies UseNFA / UseDFA / UseBoth / UseBoundedBacktracker -/
 theorem findIndices_eq_ref (S : OraclesOK O P Mt ref h) (st : Strategy) (hf : StratFlags O P ref h 0 st) :
@@ -807,7 +816,7 @@ theorem findIndices_eq_ref (S : OraclesOK O P Mt ref h) (st : Strategy) (hf : St
   | nfa => exact findIndicesNFA_ok S
   | dfa => exact findIndicesDFA_ok S hf.1 hf.2
   | both => exact findIndicesAdaptive_ok S hf
-  | bt => exact findIndicesBT_ok S (Or.inl hf.1)
+  | bt => exact findIndicesBT_ok S
 
 /-- **`FindIndicesAt` is the reference search** -/
 theorem findIndicesAt_eq_ref (S : OraclesOK O P Mt ref h) (st : Strategy) {at_ : Nat} (hat : at_ ≤ h.size)
@@ -822,7 +831,7 @@ theorem findIndicesAt_eq_ref (S : OraclesOK O P Mt ref h) (st : Strategy) {at_ :
     | nfa => exact findIndicesNFAAt_ok S hat
     | dfa => exact findIndicesDFAAt_ok S hf.1 hf.2 hat
     | both => exact findIndicesAdaptiveAt_ok S hf hat
-    | bt => exact findIndicesBTAt_ok S hf.1 hat hf.2.1 hf.2.2.1
+    | bt => exact findIndicesBTAt_ok S hat hf.1
 
 /-- **`findIndicesAtWithState` (the `FindAll` / `Count` loops) is the reference search** -/
 theorem findIndicesAtWithState_eq_ref (S : OraclesOK O P Mt ref h) (st : Strategy) {at_ : Nat} (hat : at_ ≤ h.size)
@@ -837,7 +846,7 @@ theorem findIndicesAtWithState_eq_ref (S : OraclesOK O P Mt ref h) (st : Strateg
     | nfa => exact findIndicesNFAAt_ok S hat
     | dfa => exact findIndicesDFAAt_ok S hf.1 hf.2 hat
     | both => exact findIndicesAdaptiveAt_ok S hf hat
-    | bt => exact findIndicesBTAtWithState_ok S hf.1 hat hf.2.1 hf.2.2.1 hf.2.2.2
+    | bt => exact findIndicesBTAtWithState_ok S hat hf.1 hf.2
 
 /-! ### `IsMatch` (meta/ismatch.go): UseNFA / UseDFA / UseBoth -/
 
@@ -914,15 +923,18 @@ end
 
 Each example runs the MODEL on tables that violate exactly one hypothesis and shows the wrong answer next to the reference's
 (the `pike` table, which is the reference in all of them except `cex_restart`).  (`a` = 97, `b` = 98, `c` = 99, `x` = 120.)
+The `cex_*_fixed` examples are the former counter-models of defects that were repaired in the code: same tables, same inputs,
+and the model (which follows the repaired code) now returns the reference.
 
 * `cex_pf_skips` (`PfOK.pf_some`, e.g. a partial-coverage prefilter): pattern `a` on "aa", a prefilter whose first candidate is 1:
   `findIndicesDFAAt` / `findIndicesAdaptiveAt` report [1,2); `findIndicesNFAAt`, which honours `prefilterPartialCoverage`, [0,1).
 * `cex_literalLen` (`PfCompleteOK`): `a|bc` on "bc" with a complete prefilter that claims `LiteralLen() = 1`: [0,1) instead of
   [0,2); with `LiteralLen() = 0` (what Teddy answers for literals of unequal length) the Pike VM decides.
 * `cex_rev_gives_up` (`BiOK.rev_total`): a reverse DFA that answers -1 turns a match into "no match" (no fallback in the code).
-* `cex_longest_fallback` (`OraclesOK.bi` only for `longest = false`): `[a-z]+?` on "ab" in leftmost-longest mode, input too large
-  for the backtracker: the two-pass search reports the leftmost-FIRST span [0,1), the reference is [0,2).
-  REAL: `[a-z]+?` with `Longest()` on 12 MiB of "a": coregex [0 1], regexp [0 12582912].
+* `cex_longest_fallback_fixed` (was: `OraclesOK.bi` only for `longest = false`; FIXED by ecab302): `[a-z]+?` on "ab" in
+  leftmost-longest mode, input too large for the backtracker: the two-pass search would report the leftmost-FIRST span [0,1),
+  the reference is [0,2); the code now takes the Pike VM.
+  REAL (before the fix): `[a-z]+?` with `Longest()` on 12 MiB of "a": coregex [0 1], regexp [0 12582912].
 * `cex_bt_nullable` (`BtOK` under `useBT`): a backtracker that is greedy on `(?:|a)*` ("a": [0,1) instead of [0,0)) is only
   harmless because `canMatchEmpty` keeps it out of `findIndicesNFA*`.
 * `cex_anchored_shortcut` (`OraclesOK.anchored`): `IsAlwaysAnchored()` set for a pattern that matches at offset 1.
@@ -931,9 +943,11 @@ Each example runs the MODEL on tables that violate exactly one hypothesis and sh
   `findIndicesAdaptive` (which does not ask `IsComplete()`) reports the literal's span [0,2), `findIndicesAdaptiveAt` [0,3).
 * `cex_first_byte` (`FirstByteOK`).
 * `cex_slice` (`SliceInv`): `\bb` on "ab" from 1: the backtracker sees the slice "b", where `\b` holds at 0.
-* `cex_ascii_tail` (`AsciiTailOK`): start-anchored pattern, ASCII check limited to the first byte(s): `^a.*b` on "aéb" handed to
-  the ASCII-only automaton: no match instead of [0,4).
-  REAL: `^a.*b` on "a/" + 4097×"x" + "éyb.php": `FindIndicesAt(h, 0)` = not found, `FindIndices(h)` = regexp = [0 4103].
+* `cex_ascii_tail_fixed` (was: `AsciiTailOK`; FIXED by fffbd3b): start-anchored pattern, `^a.*b` on "aéb": with the ASCII check
+  limited to the first byte(s) the haystack went to the ASCII-only automaton: no match instead of [0,4); the check now reads
+  the whole remaining input.
+  REAL (before the fix): `^a.*b` on "a/" + 4097×"x" + "éyb.php": `FindIndicesAt(h, 0)` = not found, `FindIndices(h)` = regexp = [0 4103].
+* `cex_ascii_longest_fixed` (FIXED by b09f397): the ASCII backtracker in leftmost-longest mode, see its docstring.
 * `cex_window` (`WindowOK`): `^[a-z]+` on "aaa", `MaxInputSize() = 2`: the windowed backtracker reports [0,2) instead of [0,3).
   REAL (internal function only): `^[a-z]{1000}[a-z]*` on 40000×"a": `findIndicesAtWithState(h, 0)` = [0 33386], regexp [0 40000].
 * `cex_restart` (`RefOK.restart`): a "reference" that is not a scan over start positions breaks prefilter skip-ahead. -/
@@ -962,14 +976,26 @@ theorem cex_rev_gives_up :
     findIndicesDFAAt (bruteOracles { T with revGiveUp := true }) P #[120, 97] 0 = none ∧
     findIndicesDFAAt (bruteOracles T) P #[120, 97] 0 = some (1, 2) := by decide
 
-theorem cex_longest_fallback :
+/-- FIXED by ecab302 (`!e.longest &&` in front of every call of `findIndicesBidirectionalDFALongest`).  The tables and inputs
+    of the former counter-model `cex_longest_fallback` (`[a-z]+?` on "ab", leftmost-longest mode, input too large for the
+    backtracker, both DFAs present; the DFA tables are leftmost-first, the Pike VM / backtracker tables leftmost-longest): all
+    three entry points (all five guarded call sites) now report the reference's (= the Pike VM's) span [0,2) — it used to be
+    the two-pass search's [0,1).
+    Last conjunct: in leftmost-first mode the two-pass search still is the fallback (it answers from the DFA tables). -/
+theorem cex_longest_fallback_fixed :
     let T : Tables := { mt := fun s e => decide (s < e) && decide (e ≤ 2), pike := fun a => if a < 2 then some (a, 2) else none,
                         fwd := fun a => if a < 2 then some (a + 1) else none, bt := fun a => if a < 2 then some (a, 2) else none,
                         btLimit := 1 }
-    findIndicesBT (bruteOracles T) { longest := true, hasBT := true, hasDFA := true, hasReverseDFA := true } #[97, 98] = some (0, 1) ∧
+    let P : Params := { longest := true, hasBT := true, hasDFA := true, hasReverseDFA := true }
+    findIndicesBT (bruteOracles T) P #[97, 98] = some (0, 2) ∧
+    findIndicesBTAt (bruteOracles T) P #[97, 98] 0 = some (0, 2) ∧
+    findIndicesBTAtWithState (bruteOracles T) P #[97, 98] 0 = some (0, 2) ∧
+    findIndicesBTAt (bruteOracles T) { P with hasAsciiBT := true } #[97, 98] 0 = some (0, 2) ∧            -- the ASCII branch's
+    findIndicesBTAtWithState (bruteOracles T) { P with hasAsciiBT := true } #[97, 98] 0 = some (0, 2) ∧   -- two call sites
+    (bruteOracles T).pike #[97, 98] 0 = some (0, 2) ∧
     findIndicesBT (bruteOracles T) { longest := true, hasBT := true } #[97, 98] = some (0, 2) ∧
-    findIndicesBT (bruteOracles { T with btLimit := 2 }) { longest := true, hasBT := true, hasDFA := true, hasReverseDFA := true }
-      #[97, 98] = some (0, 2) := by decide
+    findIndicesBT (bruteOracles { T with btLimit := 2 }) P #[97, 98] = some (0, 2) ∧
+    findIndicesBT (bruteOracles T) { P with longest := false } #[97, 98] = some (0, 1) := by decide
 
 theorem cex_bt_nullable :
     let T : Tables := { mt := fun s e => decide (s ≤ e) && decide (e ≤ 1), pike := fun a => if a ≤ 1 then some (a, a) else none,
@@ -1012,14 +1038,20 @@ theorem cex_slice :
     findIndicesBTAt (bruteOracles T) { hasBT := true } #[97, 98] 1 = some (1, 2) ∧
     findIndicesNFAAt (bruteOracles T) { hasBT := true } #[97, 98] 1 = none := by decide
 
-theorem cex_ascii_tail :
+/-- FIXED by fffbd3b (`simd.IsASCII(remaining)`: the whole remaining input, no 4096-byte prefix).  The tables and inputs of the
+    former counter-model `cex_ascii_tail` (`^a.*b` on "aéb", start-anchored, an ASCII-only automaton that finds nothing on
+    it): the haystack is not ASCII, so the ASCII automaton is not asked, and both entry points report the reference's span
+    [0,4) — with the check cut after the first byte it used to be "no match". -/
+theorem cex_ascii_tail_fixed :
     let T : Tables := { mt := fun s e => s == 0 && e == 4, pike := fun a => if a = 0 then some (0, 4) else none,
                         fwd := fun a => if a = 0 then some 4 else none, bt := fun a => if a = 0 then some (0, 4) else none,
                         sl := fun lo hi => if lo = 0 ∧ hi = 4 then some (0, 4) else none, asl := fun _ _ => none,
                         btLimit := 9, asciiLimit := 9 }
     let P : Params := { hasBT := true, hasAsciiBT := true, alwaysAnchored := true, isStartAnchored := true }
-    findIndicesBTAt (bruteOracles T) { P with asciiCheckLimit := 1 } #[97, 195, 169, 98] 0 = none ∧
-    findIndicesBTAt (bruteOracles T) P #[97, 195, 169, 98] 0 = some (0, 4) := by decide
+    isASCIIIn #[97, 195, 169, 98] 0 1 = true ∧ isASCIIIn #[97, 195, 169, 98] 0 4 = false ∧
+    findIndicesBTAt (bruteOracles T) P #[97, 195, 169, 98] 0 = some (0, 4) ∧
+    findIndicesBTAtWithState (bruteOracles T) P #[97, 195, 169, 98] 0 = some (0, 4) ∧
+    (bruteOracles T).pike #[97, 195, 169, 98] 0 = some (0, 4) := by decide
 
 theorem cex_window :
     let T : Tables := { mt := fun s e => s == 0 && decide (0 < e) && decide (e ≤ 3), pike := fun a => if a = 0 then some (0, 3) else none,
@@ -1036,16 +1068,24 @@ theorem cex_isMatch_false_positive :
     isMatchDFA (bruteOracles T) #[97] = true ∧ isMatchNFA (bruteOracles T) {} #[97] = false ∧
     findIndicesDFAAt (bruteOracles T) { hasDFA := true } #[97] 0 = none := by decide
 
-/-- the ASCII backtracker is not told about `Longest()` (`SetLongest`, engine.go:250-256): `^.*?b` on "bb" in leftmost-longest
-    mode: `findIndicesBoundedBacktrackerAt` reports the leftmost-FIRST span [0,1), `findIndicesBoundedBacktracker` [0,2).
-    REAL: `^.*?b` with `Longest()`: `ReplaceAllLiteral("bb", "X")` = "Xb", regexp "X". -/
-theorem cex_ascii_longest :
+/-- FIXED by b09f397 (`Engine.SetLongest` configures the ASCII backtracker as well) — a fix of the COMPONENT behind
+    `Oracles.asciiSlice`, the dispatch is the same.  The inputs of the former counter-model `cex_ascii_longest` (`^.*?b` on "bb",
+    leftmost-longest mode), with the ASCII-backtracker table the fixed component produces (leftmost-longest, like `sl`):
+    `findIndicesBoundedBacktrackerAt(WithState)` report the reference's span [0,2), as `findIndicesBoundedBacktracker` does.
+    Last conjunct: the table of the OLD component (leftmost-first whatever the mode) still yields [0,1) — it violates
+    `SliceOK.asSl`, which is a contract the real ASCII backtracker now meets in both modes (no separate caveat is left).
+    REAL (before the fix): `^.*?b` with `Longest()`: `ReplaceAllLiteral("bb", "X")` = "Xb", regexp "X". -/
+theorem cex_ascii_longest_fixed :
     let T : Tables := { mt := fun s e => s == 0 && decide (0 < e) && decide (e ≤ 2), pike := fun a => if a = 0 then some (0, 2) else none,
                         fwd := fun a => if a = 0 then some 1 else none, bt := fun a => if a = 0 then some (0, 2) else none,
-                        sl := fun lo hi => if lo = 0 then some (0, hi) else none, asl := fun lo _ => if lo = 0 then some (0, 1) else none,
+                        sl := fun lo hi => if lo = 0 then some (0, hi) else none, asl := fun lo hi => if lo = 0 then some (0, hi) else none,
                         btLimit := 9, asciiLimit := 9 }
     let P : Params := { longest := true, hasBT := true, hasAsciiBT := true, alwaysAnchored := true, isStartAnchored := true }
-    findIndicesBTAt (bruteOracles T) P #[98, 98] 0 = some (0, 1) ∧ findIndicesBT (bruteOracles T) P #[98, 98] = some (0, 2) := by
+    findIndicesBTAt (bruteOracles T) P #[98, 98] 0 = some (0, 2) ∧
+    findIndicesBTAtWithState (bruteOracles T) P #[98, 98] 0 = some (0, 2) ∧
+    findIndicesBT (bruteOracles T) P #[98, 98] = some (0, 2) ∧
+    (bruteOracles T).pike #[98, 98] 0 = some (0, 2) ∧
+    findIndicesBTAt (bruteOracles { T with asl := fun lo _ => if lo = 0 then some (0, 1) else none }) P #[98, 98] 0 = some (0, 1) := by
   decide
 
 /-- `pike` (taken as the "reference") answers [1,3) from 0 but [1,2) from 1: not a scan over start positions -/
